@@ -52,6 +52,7 @@ func c05Shapes() []linkShape {
 		add("via-root-name", "{UP}../src/a.txt")
 		add("via-root-name-dir", "{UP}../src/sub")
 		add("via-root-name-deeper-dir", "{UP}../src/sub/deep") // its inner link ../../a.txt is written for another depth
+		add("via-root-name-the-root-itself", "{UP}../src")
 		add("via-root-name-dotted", "./{UP}../src/a.txt")
 		add("via-root-name-embedded-climb", "sub/../{UP}../src/a.txt")
 		add("out-embedded-climb", "sub/../{UP}../outside/file.txt")
@@ -83,6 +84,7 @@ func c05Shapes() []linkShape {
 		// through an absolute link to an allow-listed outside directory, and
 		// from there on to a place that is not allow-listed
 		add("through-allowed-absolute-link-out", "{UP}m-abs/../file.txt")
+		add("through-link-out-sibling-prefix", "{UP}sub/deep/top/../src-evil/secret.txt")
 		add("through-link-stays-inside", "{UP}sub/deep/up1/../a.txt")
 		// ".." after a regular file: nothing can be reached through a file,
 		// the link dangles and leads nowhere
@@ -127,9 +129,9 @@ func c05BuildWorld(c c05Case) error {
 	os.Symlink("/w/outside/dirlinks/plain", "/w/outside/dirlinks/inner-abs-own")
 	mustWrite("/w/outside/dirlinks/deeper/leaf", can(), 0644)
 	os.Symlink("../plain", "/w/outside/dirlinks/deeper/inner-up-own")
-	os.Symlink("../dir", "/w/outside/dirlinks/to-other-dir")        // a dereferenced directory leading on to another outside directory
+	os.Symlink("../dir", "/w/outside/dirlinks/to-other-dir")         // a dereferenced directory leading on to another outside directory
 	os.Symlink("../../dir/sub", "/w/outside/dirlinks/deeper/to-sub") // and the same one level further down
-	os.Symlink("dir/sub", "/w/outside/sl") // sl/.. is outside/dir, not outside
+	os.Symlink("dir/sub", "/w/outside/sl")                           // sl/.. is outside/dir, not outside
 	os.MkdirAll("/w/outside/chains", 0755)
 	os.Symlink("../dir", "/w/outside/chains/hop-dir")
 	os.Symlink("../file.txt", "/w/outside/chains/hop-file")
@@ -559,7 +561,7 @@ func init() {
 	fw.Register(&fw.Property{
 		ID:    "C05",
 		Level: "exploration",
-		Rule: "a source tree with a prefix-sharing sibling (src / src-evil) and an outside area full of OUTSIDE-<n> canaries gets 1-6 links of 41 shapes (incl. links that stay inside as written but are led outside by another link) (in-tree: same dir, via root, dir, dot, dangling, dotted; out-of-tree: relative file/dir/dangling, sibling-prefix, via the root's own name, absolute in/out, chains in->out, out->in, out->out, external directory with inner links, parent, root itself) at 3 depths; " +
+		Rule: "a source tree with a prefix-sharing sibling (src / src-evil) and an outside area full of OUTSIDE-<n> canaries gets 1-6 links of 43 shapes (incl. links that stay inside as written but are led outside by another link) (in-tree: same dir, via root, dir, dot, dangling, dotted; out-of-tree: relative file/dir/dangling, sibling-prefix, via the root's own name, absolute in/out, chains in->out, out->in, out->out, external directory with inner links, parent, root itself) at 3 depths; " +
 			"packed with {dereference on/off} x {ignore on/off} x 5 allow-list settings x {fresh Packer, a Packer that packed another root at another depth before}; the slug is decoded independently and every entry is compared with the tree and with the physical target of its link; slugs from all-relative trees are handed to Unpack. Exhaustive over single shapes x option sets, PRNG over combinations. " +
 			"non-trivial = some link leaves the tree or approaches its boundary; distinct = links x options",
 		Assumptions: []string{"a link is out-of-tree when the place its target names, from the link's real location, is outside the source directory (component-wise)", "absolute links that point into the tree may be stored as absolute link entries (pinned by the repository's tests); such trees are exempt from the 'Unpack accepts' clause", "link cycles and links to special files belong to C19"},
